@@ -33,6 +33,10 @@ CHECKS = {
    technique="complete enumeration of BAR encodings x initial command values, slot assignments, all 4.2M configuration addresses per mechanism, bus populations and capability lists against a reference PCI function model behind ConfigurationAccess (and behind MmioCam through MMIO interception)",
    text="PciRoot::bar_info/bars, Cam::cam_offset, MmioCam, enumerate_bus and capabilities are run on a reference PCI function model with hard-wired BAR bits and an ordered access log: returned values equal ground truth, command and BAR registers are restored, sizing patterns are only present while decoding is disabled, configuration offsets are distinct, inside the window and equal to the mechanism's encoding, enumeration reports exactly the functions present, capability walks yield each capability once in order.",
    note="Trusts the PCI function model (lab/src/pci_model.rs) written from PCI 3.0 section 6; reserved command bits modelled read-only zero."),
+ "C11": dict(level="exploration", design="DESIGN.md §4 C11",
+   technique="exhaustive enumeration of capability lists, BAR assignments and offset/length/multiplier boundary values (deviation bound 2) on the real PciTransport::new against a reference parser in 128-bit arithmetic; every later MMIO access intercepted and classified against the true windows; checked and release profiles",
+   text="PciTransport::new runs over a reference PCI function model for every capability list up to the stated length, every BAR kind and boundary offset/length combination with up to two deviating capabilities, every notify multiplier and BAR index class, and cyclic lists: success/failure and the mapped windows must equal the reference parser's, every mmio_phys_to_virt request must lie inside an allocated memory BAR; then the whole Transport operation script runs on six layouts (plain and through SomeTransport) with each access checked against the standard common-configuration layout, queue selection, enable-last, notify offset x multiplier and reset-and-wait on drop.",
+   note="Trusts the reference parser (lab/src/c11.rs, from virtio spec 4.1.4) and the PCI/virtio-pci register models. Which error is returned is not constrained."),
 }
 
 NOT_YET = "check not built yet in this round (machinery under construction; see DESIGN.md)"
